@@ -3,10 +3,12 @@ TLC-generated and seeded adversarial histories replayed on the real handlers, re
 line by line against Processor.tla."""
 import json
 import os
+import re
 import time
 from collections import Counter
 
 import fam_gossip as fg
+import fam_p2ploop as fl
 import fam_processor as fp
 import vlib
 
@@ -125,6 +127,70 @@ def run_gossip(work, tier, seed, verdict):
     return {"states": r["distinct"], "transitions": r["generated"], "traces": len(scs), "verifier_calls": len(lines) - len(scs),
             "distinct_classes": len(classes), "verdicts": dict(verdicts), "max_peers_seen_for_one_guardian": maxpeers,
             "abstract_envelopes_without_concrete_counterpart": skipped, "rejected_lines": len(rejs)}
+
+
+def run_p2ploop(work, tier, seed, verdict):
+    """C03, routing part: the real p2p.Run (libp2p host, GossipSub, receive and send loops) over the simulated
+    transport, validated against P2PLoop.tla."""
+    r = vlib.tlc_must_pass(work, "MC_P2PLoop", "MC_P2PLoop.cfg", workers=vlib.NCPU, timeout=1200)
+    print("TLC MC_P2PLoop.cfg: %d distinct states, %d transitions, %.0fs" % (r["distinct"], r["generated"], r["wall_s"]))
+    n, hb = (20, 0) if tier == "quick" else (160, 4)
+    scs = fl.gen_scenarios(seed, n, own_hb=hb)
+    lines, wall, info = fl.replay(work, scs)
+    if lines is None:
+        verdict.add("loop/crash/" + re.sub(r"[^A-Za-z0-9]+", "-", info["crash"])[:80], {"why": "the process running p2p.Run crashed", "stack": info["stack"]})
+        return {"states": r["distinct"], "transitions": r["generated"], "traces": 0, "lines": 0, "distinct_classes": 0, "crash": info["crash"]}
+    rejs, tr = fl.validate(work, lines)
+    byn = {(ln["t"], ln["n"]): ln for ln in lines}
+    # pubsub is best effort and the harness real-time: a rejection counts only if the same history, replayed alone,
+    # is rejected again with the same signature
+    first = {}
+    for rj in rejs:
+        ln = byn.get((rj["t"], rj["n"]), {"ev": rj.get("ev"), "a": {}, "s": {}})
+        first.setdefault(rj["t"], (fl.signature(rj, ln), rj, ln))
+    confirmed = 0
+    if first:
+        ids = sorted(t for t in first if 0 < t <= len(scs))
+        again = [scs[t - 1] for t in ids]
+        lines2, wall2, info2 = fl.replay(work, again)
+        if lines2 is None:
+            verdict.add("loop/crash/" + re.sub(r"[^A-Za-z0-9]+", "-", info2["crash"])[:80], {"why": "the process running p2p.Run crashed", "stack": info2["stack"]})
+        else:
+            rejs2, _ = fl.validate(work, lines2)
+            byn2 = {(ln["t"], ln["n"]): ln for ln in lines2}
+            sigs2 = {}
+            for rj in rejs2:
+                ln = byn2.get((rj["t"], rj["n"]), {"ev": rj.get("ev"), "a": {}, "s": {}})
+                sigs2.setdefault(rj["t"], (fl.signature(rj, ln), rj, ln))
+            for k, t in enumerate(ids):
+                if (k + 1) in sigs2 and sigs2[k + 1][0] == first[t][0]:
+                    sig, rj, ln = sigs2[k + 1]
+                    if sig in ("loop/broken",):
+                        raise vlib.Broken("p2p loop harness could not drive the node: %s" % json.dumps(ln.get("s"))[:500])
+                    confirmed += 1
+                    verdict.add(sig, {"line": ln, "why": rj.get("why"), "spec_state": rj.get("spec"), "tlc": rj.get("tlc"), "loop_scenario": again[k], "reproduced": True})
+                else:
+                    print("p2p loop: rejection of history %d (%s) did not reproduce when replayed alone; not counted" % (t, first[t][0]))
+    if info.get("broken", 0) > len(scs) // 4:
+        raise vlib.Broken("p2p loop harness: %d of %d histories could not be driven: %s" % (info["broken"], len(scs), info.get("errors", [])[:3]))
+    classes = set()
+    evs = Counter()
+    for ln in lines:
+        evs[ln["ev"]] += 1
+        m = ln.get("a", {}).get("m")
+        if m:
+            e = m.get("e", {})
+            classes.add((m["kind"], m["from"] == "self", m["decodes"], e.get("signer") == e.get("claimed"), e.get("dom"), e.get("same"),
+                         e.get("parses"), e.get("short"), bool(ln["s"].get("fwd")), bool(ln["s"].get("obs")), bool(ln["s"].get("vaa")), len(ln["s"].get("gs", [])) > 0))
+    print("p2p.Run loop: %d histories, %d lines (%s) in %.1fs; trace validation %d states, %d rejected line(s), %d reproduced"
+          % (len(scs), len(lines), ", ".join("%s %d" % kv for kv in sorted(evs.items())), wall, tr["distinct"], len(rejs), confirmed))
+    need = {"NetRecv", "LocalSend", "LocalReq", "GSetUpdate", "End"}
+    if not verdict.items and not need <= set(evs):
+        raise vlib.Broken("p2p loop harness exercised only %s" % sorted(evs))
+    return {"states": r["distinct"], "transitions": r["generated"], "traces": len(scs), "lines": len(lines) - len(scs),
+            "distinct_classes": len(classes), "events": dict(evs), "rejected_lines": len(rejs), "reproduced": confirmed,
+            "checked": ["RouterInputVerified", "KindRouting", "RecvNeverPublishes", "CapHolds", "own publications ignored", "LocalSend publishes the bytes unchanged",
+                        "LocalReq: one loop-back + a request signed under the request domain", "own heartbeat signed under the heartbeat domain (thorough)"]}
 
 
 def quorum_use_sites(work, tier, seed, verdict):
@@ -341,6 +407,9 @@ def run(prop, tier, replay=None):
     gossip_cov = {}
     if prop == "C03" and not replay:
         gossip_cov = run_gossip(work, tier, seed, verdict)
+    loop_cov = {}
+    if prop == "C03" and not replay:
+        loop_cov = run_p2ploop(work, tier, seed, verdict)
     if prop == "C13":
         # A panic is a violation whatever the specification thinks of the lines before it: a trace that TLC stopped
         # following after an earlier (non-panic) rejection may still contain one.
@@ -441,6 +510,13 @@ def run(prop, tier, replay=None):
     }
     if network_cov:
         cov["network_composition_model"] = network_cov
+    if loop_cov:
+        cov["p2p_run_loop"] = loop_cov
+        cov["states"] += loop_cov["states"]
+        cov["transitions"] += loop_cov["transitions"]
+        cov["traces_validated_against_impl"] += loop_cov["traces"]
+        cov["evaluations"] += loop_cov["lines"]
+        cov["distinct_nontrivial"] += loop_cov["distinct_classes"]
     if gossip_cov:
         cov["gossip_verifiers"] = gossip_cov
         cov["states"] += gossip_cov["states"]
